@@ -709,7 +709,7 @@ def _unordered_opposites(dump):
     return out
 
 
-def follow_up(env, rs, target, priors, timeout):
+def follow_up(env, rs, target, priors, timeout, restored=()):
     """After a failed load: the intact document, in the same ResourceSet and in a fresh one, must load as it
     does in a ResourceSet that never saw a failure."""
     intact = env.files.get(target, env.files[f'main.{env.fmt}'])
@@ -717,7 +717,13 @@ def follow_up(env, rs, target, priors, timeout):
         f.write(intact)
     base = env.baselines[(target, tuple(priors))]
     probs = []
+    from pyecore.resources import URI
+    # a restored document that loaded successfully on the way is still registered (by design) with its
+    # previous content: reloading in the same ResourceSet would not read the intact file
+    stale = any(URI(env.path(name)).normalize() in rs.resources for name in (restored or ()))
     for where, rs_, load_priors in (('same-rset', rs, False), ('fresh-rset', new_rset(env), True)):
+        if where == 'same-rset' and stale:
+            continue
         got = intact_load(env, rs_, target, priors, timeout, load_priors)
         if got[0] == 'hang':
             probs.append(('hang', f'loading the intact document after a failed load hangs ({where})'))
@@ -824,7 +830,7 @@ def _attempt(env, target, priors, timeout, model, follow=False, restore=None):
         for name, content in (restore or {}).items():
             with open(env.path(name), 'wb') as f:
                 f.write(content)
-        probs += follow_up(env, rs, target, priors, timeout)
+        probs += follow_up(env, rs, target, priors, timeout, list(restore or {}))
         res['followed'] = True
     # well-formedness of what loaded (may resolve proxies, hence after the registry checks)
     if out1 == 'returned':
@@ -1027,7 +1033,7 @@ def run(ctx, out):
              'prefix_attempts': 0, 'corruption_attempts': 0, 'model_calls': 0, 'with_nested_loads': 0,
              'setup_failed': 0, 'registry_walk_calls': 0, 'followed_by_intact_reload': 0, 'later_load_affected_inherited': 0, 'docs': [], 'samples': [], 'distinct': set(), 'intact_not_loading': []}
     n_specs, nmax, prefix_cap = (4, 5, 1000) if not thorough else (16, 7, 5000)
-    budget = time.time() + (38 if not thorough else 500)
+    budget = time.time() + (float(os.environ.get("C18_BUDGET", 32)) if not thorough else 500)
     cut = False
     mm = make_mm()
 
